@@ -404,3 +404,138 @@ Proof.
     destruct (fuel_split _ _ Hfu) as [f Ef]. rewrite Ef.
     apply (fields_loop_fill S md fs _ reqs _ 0 (plen reqs) f Hfs Hnodup). rewrite plen_app. lia.
 Qed.
+
+(* ------------------------------------------------------------------ Node.Indexes *)
+Lemma index_pred_ext reqs size i : 0 <= i < size -> forall j,
+  req_matches reqs (fun st => match st with PIndex k => negb (k >=? size) && (k =? i) | _ => false end) j =
+  req_matches reqs (fun s => step_eqb (PIndex i) s) j.
+Proof.
+  intros Hi j. unfold req_matches. destruct (nth_error reqs j) as [[ | |k| | ]|]; cbn [step_eqb]; try reflexivity.
+  destruct (Z.eqb_spec k i) as [->|Hne].
+  - rewrite Z.eqb_refl. destruct (Z.geb_spec i size); [lia|reflexivity].
+  - rewrite andb_false_r. symmetry. apply Z.eqb_neq. lia.
+Qed.
+
+Lemma indexes_loop_packed k xs : forall pre reqs acc i count need size fuel,
+  is_numeric k = true -> Forall (fun x => scalar_okb k x = true) xs -> 0 <= i -> i + plen xs <= size ->
+  a_indexes_loop (length xs + Datatypes.S fuel) (pre ++ penc k xs) (plen pre) (wt_of_kind k) true k size reqs acc i count need =
+  MOk (fill (index_children (TScalar k) i (map (VScalar k) xs)) reqs acc count need).
+Proof.
+  induction xs as [|x xs IH]; intros pre reqs acc i count need size fuel Hk Hall Hi Hsz.
+  - cbn [length plus a_indexes_loop map index_children fill penc flat_map]. rewrite app_nil_r, Z.ltb_irrefl. reflexivity.
+  - assert (Hx : scalar_okb k x = true) by (inversion Hall; assumption).
+    assert (Hxs : Forall (fun x => scalar_okb k x = true) xs) by (inversion Hall; assumption).
+    rewrite plen_cons in Hsz. pose proof (plen_nonneg xs) as Hpx.
+    rewrite penc_cons. pose proof (scalar_val_plen_pos k x). pose proof (plen_nonneg (penc k xs)).
+    cbn [length plus a_indexes_loop map index_children fill]. rewrite !plen_app.
+    destruct (Z.ltb_spec (plen pre) (plen pre + (plen (wenc_val (scalar_to_wire k x)) + plen (penc k xs)))); [|lia]. cbn [andb].
+    destruct (count <? need); [|reflexivity].
+    destruct (scalar_rt k x Hk Hx) as [_ [Hwf Hwt]]. unfold list_next.
+    assert (Hs : askip (pre ++ wenc_val (scalar_to_wire k x) ++ penc k xs) (plen pre) (wt_of_kind k) =
+                 SkOk (plen pre + plen (wenc_val (scalar_to_wire k x)))) by (rewrite <- Hwt; apply askip_val; exact Hwf).
+    rewrite Hs. rewrite slice_app. change (encode_elem (VScalar k x)) with (wenc_val (scalar_to_wire k x)).
+    rewrite (set_first_ext _ _ _ (index_pred_ext reqs size i ltac:(lia))). cbn [kid_step kid_out kind_of_type].
+    destruct (set_first (req_matches reqs (fun s => step_eqb (PIndex i) s)) (k, wenc_val (scalar_to_wire k x)) 0 acc) as [acc' b].
+    rewrite <- plen_app, app_assoc. apply IH; try assumption; lia.
+Qed.
+
+Lemma indexes_loop_unpacked S t vs : forall pre reqs acc i count need size fuel fnum,
+  Forall (fun x => wf_fld S LSingular t x = true) vs -> wf_wire (map (pair fnum) (map sval vs)) = true ->
+  0 <= i -> i + plen vs <= size ->
+  a_indexes_loop (length vs + Datatypes.S fuel) (pre ++ wenc (map (pair fnum) (map sval vs))) (plen pre) (elem_wt t) false
+                 (kind_of_type t) size reqs acc i count need =
+  MOk (fill (index_children t i vs) reqs acc count need).
+Proof.
+  induction vs as [|x vs IH]; intros pre reqs acc i count need size fuel fnum Hall Hwf Hi Hsz.
+  - cbn [length plus a_indexes_loop map index_children fill wenc flat_map]. rewrite app_nil_r, Z.ltb_irrefl. reflexivity.
+  - assert (Hx : wf_fld S LSingular t x = true) by (inversion Hall; assumption).
+    assert (Hxs : Forall (fun x => wf_fld S LSingular t x = true) vs) by (inversion Hall; assumption).
+    rewrite plen_cons in Hsz. pose proof (plen_nonneg vs) as Hpx.
+    cbn [map] in *. cbn [wf_wire forallb] in Hwf. apply andb_true_iff in Hwf as [Hf Hws].
+    destruct (wf_singular_facts _ _ _ Hx) as [Hw [Hwt [Htt Ee]]].
+    rewrite wenc_cons. pose proof (wenc_field_plen_pos (fnum, sval x)). pose proof (plen_nonneg (wenc (map (pair fnum) (map sval vs)))).
+    cbn [length plus a_indexes_loop index_children fill]. rewrite !plen_app.
+    destruct (Z.ltb_spec (plen pre) (plen pre + (plen (wenc_field (fnum, sval x)) + plen (wenc (map (pair fnum) (map sval vs)))))); [|lia]. cbn [andb].
+    destruct (count <? need); [|reflexivity].
+    unfold list_next. destruct (record_skip pre (fnum, sval x) (wenc (map (pair fnum) (map sval vs))) Hf) as [Hc Hs]. cbn [fst snd] in Hc, Hs.
+    rewrite Hwt in Hc, Hs. rewrite Hc, Hs.
+    assert (Esl : slice (pre ++ wenc_field (fnum, sval x) ++ wenc (map (pair fnum) (map sval vs)))
+                        (plen pre + plen (tagb fnum (elem_wt t))) (plen pre + plen (wenc_field (fnum, sval x))) = encode_elem x).
+    { rewrite <- Hwt. rewrite wenc_field_tagb. cbn [fst snd]. rewrite <- !app_assoc. rewrite app_assoc. rewrite <- plen_app.
+      replace (plen pre + plen (tagb fnum (wt_of_wval (sval x)) ++ wenc_val (sval x))) with (plen (pre ++ tagb fnum (wt_of_wval (sval x))) + plen (wenc_val (sval x)))
+        by (rewrite !plen_app; lia).
+      rewrite slice_app. symmetry. exact Ee. }
+    rewrite Esl.
+    rewrite (set_first_ext _ _ _ (index_pred_ext reqs size i ltac:(lia))). cbn [kid_step kid_out].
+    destruct (set_first (req_matches reqs (fun s => step_eqb (PIndex i) s)) (kind_of_type t, encode_elem x) 0 acc) as [acc' b].
+    rewrite <- plen_app, app_assoc. apply (IH _ reqs acc' (i + 1) _ need size fuel fnum Hxs Hws); lia.
+Qed.
+
+Lemma index_kids_steps t vs : forall i s, In s (map kid_step (index_children t i vs)) -> exists j, i <= j /\ s = PIndex j.
+Proof.
+  induction vs as [|x vs IH]; intros i s H; [contradiction|]. cbn [index_children map kid_step] in H. destruct H as [<-|H].
+  - exists i. split; [lia|reflexivity].
+  - destruct (IH _ _ H) as [j [Hj ->]]. exists j. split; [lia|reflexivity].
+Qed.
+
+Lemma index_kids_ok t vs : forall i,
+  NoDup (map kid_step (index_children t i vs)) /\
+  Forall (fun k => step_eqb (kid_step k) (kid_step k) = true) (index_children t i vs).
+Proof.
+  induction vs as [|x vs IH]; intros i; [split; constructor|]. destruct (IH (i + 1)) as [H1 H2].
+  cbn [index_children map kid_step]. split.
+  - constructor; [|exact H1]. intros Hin. destruct (index_kids_steps _ _ _ _ Hin) as [j [Hj E]]. inversion E. lia.
+  - constructor; [cbn [kid_step step_eqb]; apply Z.eqb_refl|exact H2].
+Qed.
+
+Theorem getmany_indexes_kids S p t num q vs reqs :
+  p = type_numeric t -> 1 <= num <= MAX_FIELD_NUMBER ->
+  wf_fld S (LRepeated p) t (VList q vs) = true -> plen (wenc (wfld num (VList q vs))) < 2 ^ 63 ->
+  NoDup reqs -> (exists i r, reqs = PIndex i :: r) ->
+  a_getmany all_fixes S (list_node p t num (plen vs) (VList q vs)) reqs =
+  MOk (many_of_kids (spec_children S (LRepeated p) t (VList q vs)) reqs).
+Proof.
+  intros Hp Hn Hwf Hlen Hdup [i0 [r0 Er]]. destruct (wf_list_facts _ _ _ _ _ num Hwf) as [Hq [Hne [Hall Hshape]]].
+  destruct (index_kids_ok t vs 0) as [Hk1 Hk2]. cbn [spec_children].
+  rewrite <- (fill_is_map reqs _ Hdup Hk1 Hk2).
+  change (2 ^ 63) with 9223372036854775808 in Hlen.
+  unfold a_getmany. rewrite Er. rewrite <- Er. unfold list_node. cbn [an_t an_raw an_ty an_size]. change (T_LIST =? T_LIST) with true. cbn [negb].
+  destruct q.
+  - destruct Hshape as [k [xs [Et [Hk [Evs [Hxs [Ew Hpl]]]]]]]. subst t vs. cbn [type_numeric]. rewrite Hk.
+    rewrite Ew in *. set (tg := tagb num 2). set (lenb := varint_enc (plen (penc k xs))).
+    assert (E0 : wenc [(num, WBytes (penc k xs))] = [] ++ tg ++ lenb ++ penc k xs).
+    { unfold wenc. cbn [flat_map]. rewrite app_nil_r, wenc_field_tagb. reflexivity. }
+    set (buf := wenc [(num, WBytes (penc k xs))]) in *.
+    assert (Hc : ctag buf 0 = Some (num, 2, plen tg)).
+    { rewrite E0. change 0 with (plen (@nil Z)). unfold tg. apply ctag_enc; [exact Hn|unfold wt_ok; auto]. }
+    rewrite Hc. change (2 =? 2) with true. cbn [negb].
+    assert (Hbl : plen (penc k xs) <= plen buf).
+    { rewrite E0. cbn [app]. rewrite !plen_app. pose proof (plen_nonneg tg). pose proof (plen_nonneg lenb). lia. }
+    pose proof (plen_nonneg (penc k xs)) as Hpn.
+    assert (Hal : aread_length buf (plen tg) = Some (plen (penc k xs), plen (tg ++ lenb))).
+    { unfold aread_length. replace buf with (tg ++ lenb ++ penc k xs ++ []) by (rewrite E0, app_nil_r; reflexivity).
+      unfold lenb. rewrite cvar_enc by lia. rewrite to_s64_small by lia. fold lenb. rewrite !plen_app. reflexivity. }
+    rewrite Hal.
+    assert (Hfu : (length xs <= length buf)%nat) by (pose proof (penc_len k xs); rewrite !plen_len in Hbl; lia).
+    destruct (fuel_split _ _ Hfu) as [f Ef]. rewrite Ef.
+    replace buf with ((tg ++ lenb) ++ penc k xs) by (rewrite E0, <- app_assoc; reflexivity).
+    unfold elem_wt. cbn [kind_of_type].
+    apply (indexes_loop_packed k xs (tg ++ lenb) reqs _ 0 0 (plen reqs) _ f Hk Hxs); [lia|].
+    unfold plen. rewrite map_length. lia.
+  - symmetry in Hq. rewrite <- Hp in Hq. assert (Hnn : type_numeric t = false) by (destruct p; [discriminate Hq|congruence]).
+    rewrite Hnn. rewrite Hshape in *.
+    assert (Hw : wf_wire (map (pair num) (map sval vs)) = true).
+    { destruct (wfld_fvals _ _ _ _ num Hwf) as [E _]. rewrite Hshape in E. rewrite E. apply map_pair_wf; [exact Hn|apply (fvals_wf _ _ _ _ Hwf)]. }
+    destruct vs as [|x0 vs']; [contradiction|].
+    assert (Hx0 : wf_fld S LSingular t x0 = true) by (inversion Hall; assumption).
+    destruct (sval_bytes _ _ _ Hx0 Hnn) as [b0 Eb0].
+    assert (Hc : exists tn, ctag (wenc (map (pair num) (map sval (x0 :: vs')))) 0 = Some (num, 2, tn)).
+    { cbn [map]. rewrite wenc_cons. cbn [map wf_wire forallb] in Hw. apply andb_true_iff in Hw as [Hf _].
+      destruct (record_skip [] (num, sval x0) (wenc (map (pair num) (map sval vs'))) Hf) as [Hc _]. cbn [app fst snd] in Hc.
+      change (plen (@nil Z)) with 0 in Hc. rewrite Eb0 in Hc. cbn [wt_of_wval] in Hc. rewrite Eb0. eexists. exact Hc. }
+    destruct Hc as [tn Hc]. rewrite Hc. change (2 =? 2) with true. cbn [negb].
+    assert (Hfu : (length (x0 :: vs') <= length (wenc (map (pair num) (map sval (x0 :: vs')))))%nat).
+    { pose proof (wenc_len (map (pair num) (map sval (x0 :: vs')))) as H. rewrite !map_length in H. exact H. }
+    destruct (fuel_split _ _ Hfu) as [f Ef]. rewrite Ef.
+    apply (indexes_loop_unpacked S t (x0 :: vs') [] reqs _ 0 0 (plen reqs) _ f num Hall Hw); lia.
+Qed.
